@@ -551,7 +551,7 @@ def run(tier, pid):
 
 
 def all3(n):
-    return ("tc", "eh") if n % 4 == 0 else ("tc", "ph") if n % 2 else ("ph",)
+    return ("eh",) if n % 4 == 0 else ("tc",) if n % 2 else ("ph",)
 
 
 def tc_only(n):
